@@ -89,9 +89,10 @@ def _indent_of(line):
 
 class FnSpec:
     def __init__(self, name, file, impl=None, nth=0, ret=None, requires=(), ensures=(), decreases=None,
-                 loops=None, proofs=(), rules=(), attrs=(), sig_sub=(), self_ty=None, opens_impl=None, body_sub=(), label=None):
+                 loops=None, proofs=(), rules=(), attrs=(), sig_sub=(), self_ty=None, opens_impl=None, body_sub=(), label=None, twin=None):
         self.name = name
         self.label = label or name   # unique within the unit: used in obligation names and tags
+        self.twin = twin             # dict(sig=str, subs=[(regex, repl)]): emit the rule-processed body a second time as a spec function
         self.file = file
         self.impl = impl            # regex of the impl header, or None for a free fn
         self.nth = nth
@@ -118,6 +119,7 @@ class Unit:
         self.wrap = wrap or {}       # impl header regex -> (open text, close text) used in the unit
         self.rlimit = rlimit
         self.dropped = list(dropped)
+        self.property_lemmas = {}    # lemma name -> description: lemmas that state the property over the contracts (a failure is a violation)
 
 
 def extract_fn(repo_dir, fs):
@@ -254,6 +256,19 @@ def annotate_fn(fs, text, negctl=False):
     return out, info
 
 
+def make_twin(fs, real):
+    """The body of the real function (after the desugaring rules, without any spliced clause) emitted a second time as a
+    spec function: its abstract view.  Exec helpers are renamed to their spec counterparts by fs.twin['subs']."""
+    text, _ = apply_rules(real, fs.body_sub)
+    src = Source('<fn %s>' % fs.name, text)
+    f = src.find_fn(fs.name)
+    body = text[f['open']:f['end'] + 1]
+    body = ''.join(c if src.mask[f['open'] + k] or c == '\n' else ' ' for k, c in enumerate(body))   # drop comments
+    for rx, rep in fs.twin.get('subs', []):
+        body = re.sub(rx, rep, body)
+    return '%s %s // @vx:%s:twin' % (fs.twin['sig'], body, fs.label)
+
+
 def build_unit(unit, repo_dir, negctl=False):
     """Returns (text, meta).  meta: fn ranges (line spans in generated file), clause list, rule log."""
     parts = []
@@ -282,6 +297,8 @@ def build_unit(unit, repo_dir, negctl=False):
             if fs.impl is not None:
                 parts.append(unit.wrap[fs.impl] + ' {\n')
             cur_impl = fs.impl
+        if fs.twin:
+            parts.append(make_twin(fs, real) + '\n\n')
         if negctl:
             # the planted falsehoods go into an uncalled *copy* `<fn>__negctl`, so that a callee's
             # `ensures false` cannot poison (and thereby mask) its callers
@@ -379,9 +396,18 @@ def interpret(unit, meta, gen_text, res):
                 where = text.split(TAG, 1)[1].strip()
             else:
                 where = 'code: ' + ' '.join(text.split())
+        lemma = None
+        if sp and fn is None:
+            for k in range(sp['line_start'] - 1, -1, -1):
+                mm = re.match(r'\s*(?:pub\s+)?(?:broadcast\s+)?proof fn (\w+)', lines[k]) if k < len(lines) else None
+                if mm:
+                    lemma = mm.group(1)
+                    break
+                if re.match(r'\s*(?:pub\s+)?(?:open\s+|closed\s+)?(?:spec\s+)?fn \w+', lines[k]):
+                    break
         if d.get('code'):
             cls = 'tool'   # rustc error with an error code: compile problem
-        fails.append(dict(fn=fn, msg=msg, where=where, tags=sorted(set(tags)), cls=cls, rendered=d.get('rendered', '')[:3000]))
+        fails.append(dict(fn=fn, lemma=lemma, msg=msg, where=where, tags=sorted(set(tags)), cls=cls, rendered=d.get('rendered', '')[:3000]))
     per_fn = {}
     smt = 0.0
     js = res['json']
